@@ -40,33 +40,41 @@ REC_QUICK = ((1, 1, 1), (2, 1, 1), (3, 2, 0))
 REC_THOROUGH = ((3, 1, 1), (4, 2, 0), (5, 2, 0), (2, 1, 2))
 
 
-def recover_obls(prefix, quick=REC_QUICK, thorough=REC_THOROUGH, strict_logopen=False, known=None):
+def recover_obls(prefix, quick=REC_QUICK, thorough=REC_THOROUGH, strict_logopen=False, known=None, real_sort=False):
+    """real_sort=True links the real util/array.c quicksort instead of the compare-exchange model (slow)."""
     out = []
     for tier, tuples in (("quick", quick), ("thorough", thorough)):
         for (names, tables, recs) in tuples:
-            defs = {"VP_NAMES": names, "VP_TABLES": tables, "VP_RECS": recs}
+            bits = 62 if names <= 3 else 16
+            defs = {"VP_NAMES": names, "VP_TABLES": tables, "VP_RECS": recs, "VP_NUMBITS": bits}
             name = "%s.recover-names%d-tables%d-recs%d" % (prefix, names, tables, recs)
+            if real_sort:
+                defs["VP_REAL_SORT"] = 1
+                name += "-realsort"
             if strict_logopen:
                 defs["VP_STRICT_LOGOPEN"] = 1
                 name += "-strict-logopen"
             uw = {"ldb_recover.0": names + 1, "ldb_recover.1": names + 1, "ldb_recover_log_file.0": recs + 2}
-            out.append(Obl(name, "dbimpl/recover.c",
+            if real_sort:
+                uw.update({"ldb_qsort": max(names, 1), "ldb_partition.0": names + 1, "ldb_partition.1": names + 1,
+                           "ldb_partition.2": names // 2 + 2})
+            out.append(Obl(name, "dbimpl/recover.c", real=["util/array.c"] if real_sort else [],
                            include_real=["db_impl.c"], kit=KIT, defs=defs,
                            unwind=_unwind(names, recs, tables), unwindset=uw,
-                           tier=tier, timeout=900, flags=FLAGS, functions=REC_FUNCS, known=known,
+                           tier=tier, timeout=900 if tier == "quick" else 3000, flags=FLAGS, functions=REC_FUNCS, known=known,
                            desc="one real ldb_recover(): logs replayed == {n >= log_number or n == prev_log_number} in ascending order, each marked; missing table => CORRUPTION; last_sequence raised to the replayed maximum; nothing deleted/renamed/truncated; create_if_missing/error_if_exists => INVALID untouched; new db committed by CURRENT after MANIFEST sync; failures returned",
-                           bounds="directory of %d arbitrary distinct names (any type, 62-bit numbers, foreign names), version with <=%d tables, <=%d records per log, symbolic counters and options, every env call may fail" % (names, tables, recs)))
+                           bounds="directory of %d arbitrary distinct names (any type, %d-bit numbers, foreign names), version with <=%d tables, <=%d records per log, symbolic counters and options, every env call may fail" % (names, bits, tables, recs)))
     return out
 
 
-def array_sort_obls(prefix, quick=(0, 1, 2, 3, 4), thorough=(5, 6)):
+def array_sort_obls(prefix, quick=(0, 1, 2, 3), thorough=(4,)):
     out = []
     for tier, ns in (("quick", quick), ("thorough", thorough)):
         for n in ns:
             out.append(Obl("%s.array-sort-n%d" % (prefix, n), "dbimpl/array_sort.c",
                            real=["util/array.c"], kit=["vp_nondet.c"], defs={"VP_N": n},
                            unwind=n + 2, unwindset={"ldb_qsort": max(n, 1), "ldb_partition.0": n + 1, "ldb_partition.1": n + 1, "ldb_partition.2": n // 2 + 2},
-                           tier=tier, timeout=600,
+                           tier=tier, timeout=600 if n <= 3 else 3000,
                            functions=["ldb_array_init", "ldb_array_push", "ldb_array_grow", "ldb_array_sort", "ldb_qsort", "ldb_partition", "ldb_swap", "ldb_array_clear"],
                            desc="real util/array.c quicksort with the ascending comparison: result ascending and a permutation of the input (contract used by dbimpl/recover.c for the log replay order)",
                            bounds="%d arbitrary 64-bit numbers" % n))
@@ -98,3 +106,11 @@ def open_obls(prefix, quick=OPEN_QUICK, thorough=OPEN_THOROUGH, strict_logopen=F
                            desc="one real ldb_open(): new log number allocated after recovery, log created, edit names the current log (prev_log 0) and carries the recovered tables, applied before anything is removed, compaction scheduled last; every failure returns the error with *dbptr NULL, lock released iff taken, everything closed",
                            bounds="directory of %d names at recovery and %d at garbage collection, version with <=%d tables, <=%d records per log, symbolic options, every env call may fail" % (names, names2, tables, recs)))
     return out
+
+
+def filenum_obls(prefix):
+    return [Obl("%s.file-number-allocator" % prefix, "dbimpl/filenum.c", real=["version_set.c"], kit=["vp_nondet.c"],
+                unwind=2, tier="quick", timeout=300,
+                functions=["ldb_versions_new_file_number", "ldb_versions_reuse_file_number", "ldb_versions_mark_file_number"],
+                desc="real version_set.c file-number allocator: strictly increasing, reuse undoes only the latest allocation, mark_file_number makes later numbers exceed the marked one (the contract the recovery harnesses model)",
+                bounds="all 62-bit counter values and marked numbers")]
